@@ -38,10 +38,10 @@ def handler : IO Handler := pure fun op args => pure <|
     | some x, some m => if x < 2^64 ∧ m < 2^64 then some s!"ok {pext x m}" else some "bad-op"
     | _, _ => some "bad-op"
   | "pdep-go", [x, m] => match x.toNat?, m.toNat? with
-    | some x, some m => if x < 2^64 ∧ m < 2^64 then some s!"ok {pdepGo x m}" else some "bad-op"
+    | some x, some m => if x < 2^64 ∧ m < 2^64 then (match pdepGo x m with | some r => some s!"ok {r}" | none => some "err fuel") else some "bad-op"
     | _, _ => some "bad-op"
   | "pext-go", [x, m] => match x.toNat?, m.toNat? with
-    | some x, some m => if x < 2^64 ∧ m < 2^64 then some s!"ok {pextGo x m}" else some "bad-op"
+    | some x, some m => if x < 2^64 ∧ m < 2^64 then (match pextGo x m with | some r => some s!"ok {r}" | none => some "err fuel") else some "bad-op"
     | _, _ => some "bad-op"
   | _, _ => none
 
